@@ -61,6 +61,10 @@ def sh(cmd, cwd=None):
 def main():
     want = set(sys.argv[1:])
     rows = []
+    prev = {}
+    pj = "/verif/seeded/own_mutants.json"
+    if os.path.exists(pj):
+        prev = json.load(open(pj))
     for name, f, old, new, checks in M:
         if want and name not in want:
             continue
@@ -87,7 +91,7 @@ def main():
                 continue
             passes = 0
             for _ in range(2):
-                rct, outt = sh("go test -vet=off -count=1 ./...", cwd="/repo")
+                rct, outt = sh("go test -vet=off -count=1 -timeout 90s ./...", cwd="/repo")
                 passes += rct == 0
             suite = "passes" if passes == 2 else ("flaky" if passes == 1 else "FAILS")
             caught, missed, first = [], [], ""
@@ -101,12 +105,15 @@ def main():
                 else:
                     missed.append(p + ("(inconclusive)" if rcc == 2 else ""))
             rows.append((name, f, suite, ", ".join(caught) or "-", ", ".join(missed) or "-", first))
+            prev[name] = rows[-1]
+            json.dump(prev, open(pj, "w"), indent=1)
             print(name, suite, "caught:", caught, "missed:", missed, flush=True)
         finally:
             sh("git -C /repo checkout -- .")
     with open("/verif/seeded/OWN_MUTANTS.md", "w") as fo:
         fo.write("# Hand-written breaking changes (from the design's \"aimed at\" lists)\n\nNot independent of the checks (I wrote both); kept as a regression list. `suite` says whether the repository's own tests notice the change.\n\n| change | file | suite | caught by | run but missed by | first report |\n|---|---|---|---|---|---|\n")
-        for r in rows:
+        allrows = [prev[n] for n, *_ in M if n in prev]
+        for r in allrows:
             r = tuple(r) + ("",) * (6 - len(r))
             fo.write("| %s | %s | %s | %s | %s | %s |\n" % tuple(str(x).replace("|", "\\|") for x in r))
     print("written")
